@@ -38,7 +38,7 @@ Qed.
 
 (* ---- accumulation loops *)
 Lemma acc_fold ss : forall ab,
-  fold_left (acc_step RO) ss ab = (fst ab + WXsum (pres ss), snd ab + Wsum (pres ss)).
+  fold_left (acc_step RO (wtmp RO)) ss ab = (fst ab + WXsum (pres ss), snd ab + Wsum (pres ss)).
 Proof.
   induction ss as [|s ss IH]; intros [a b]; cbn [fold_left].
   - unfold WXsum, Wsum; cbn. f_equal; lra.
@@ -46,11 +46,11 @@ Proof.
     destruct (present s); cbn; unfold WXsum, Wsum; cbn; f_equal; lra.
 Qed.
 
-Lemma acc_R ss : acc RO ss = (WXsum (pres ss), Wsum (pres ss)).
+Lemma acc_R ss : acc RO (wtmp RO) ss = (WXsum (pres ss), Wsum (pres ss)).
 Proof. unfold acc, tzero. rewrite acc_fold. cbn. f_equal; lra. Qed.
 
 Lemma mean_of_R ss f :
-  mean_of RO ss f = if Rlt_dec 0 (Wsum (pres ss)) then WXsum (pres ss) / Wsum (pres ss) else f.
+  mean_of RO (wtmp RO) ss f = if Rlt_dec 0 (Wsum (pres ss)) then WXsum (pres ss) / Wsum (pres ss) else f.
 Proof. unfold mean_of. rewrite acc_R. cbn. unfold Rltb, tzero. cbn. destruct (Rlt_dec 0 _); reflexivity. Qed.
 
 Lemma count_fold ss : forall c,
@@ -64,7 +64,7 @@ Lemma count_of_R ss : count_of ss = Z.of_nat (length (pres ss)).
 Proof. unfold count_of. rewrite count_fold. lia. Qed.
 
 Lemma unc_fold res ss : forall ab,
-  fold_left (unc_step RO res) ss ab = (fst ab + W2sum (pres ss), snd ab + Dev res (pres ss)).
+  fold_left (unc_step RO (wtmp RO) res) ss ab = (fst ab + W2sum (pres ss), snd ab + Dev res (pres ss)).
 Proof.
   induction ss as [|s ss IH]; intros [a b]; cbn [fold_left].
   - unfold W2sum, Dev; cbn. f_equal; lra.
@@ -72,11 +72,11 @@ Proof.
     destruct (present s); cbn; unfold W2sum, Dev; cbn; f_equal; lra.
 Qed.
 
-Lemma unc_R res ss : unc RO res ss = (W2sum (pres ss), Dev res (pres ss)).
+Lemma unc_R res ss : unc RO (wtmp RO) res ss = (W2sum (pres ss), Dev res (pres ss)).
 Proof. unfold unc, tzero. rewrite unc_fold. cbn. f_equal; lra. Qed.
 
 Lemma stddev_of_R ss res :
-  stddev_of RO ss res =
+  stddev_of RO (wtmp RO) (count_of ss) ss res =
     if (1 <? Z.of_nat (length (pres ss)))%Z
     then (sqrt (Wsum (pres ss) / (Wsum (pres ss) * Wsum (pres ss) - W2sum (pres ss)) * Dev res (pres ss)), false)
     else (0, true).
